@@ -17,6 +17,8 @@ pkg=$(grep -m1 '^package ' $SRC/demo${N}_test.go | awk '{print $2}')
 case $pkg in roaring|roaring_test) dir=. ;; roaring64|roaring64_test) dir=roaring64 ;; *) dir=BitSliceIndexing ;; esac
 # the 32-bit BSI package is also called "roaring": look at what the patch touches / what the demo imports
 if [ "$dir" = "." ] && grep -q '^diff --git a/BitSliceIndexing/' $PATCH && ! grep -q '^diff --git a/[a-z_0-9]*\.go' $PATCH; then dir=BitSliceIndexing; fi
+# ... or its header comment says where it belongs
+if [ "$dir" = "." ] && head -15 $SRC/demo${N}_test.go | grep -q "BitSliceIndexing"; then dir=BitSliceIndexing; fi
 [ -n "${SEED_DIR:-}" ] && dir=$SEED_DIR      # override: where the demo goes
 RACE=""; [ -n "${SEED_RACE:-}" ] && RACE="-race"   # schedule-dependent demos are run under the race detector
 git apply $PATCH
